@@ -80,25 +80,17 @@ func (t *treePipeline) output(w io.Writer, r io.Reader, cfg *config) error {
 	rootStream, errcr := newRootGeneratorPipeline().generate(ctx, splitStream)
 	growStream, errcg := t.grower.grow(ctx, rootStream)
 	errcs := t.spreader.spread(ctx, w, growStream)
-	return t.handlePipelineErr(ctx, errcsl, errcr, errcg, errcs)
+	return t.handlePipelineErr(ctx, cancel, errcsl, errcr, errcg, errcs)
 }
 
 func (t *treePipeline) outputProgrammably(w io.Writer, root *Node, cfg *config) error {
 	ctx, cancel := context.WithCancel(cfg.ctx)
 	defer cancel()
 
-	rootStream := make(chan *Node)
-	go func() {
-		defer close(rootStream)
-		verifPoint("feed.send")
-		select {
-		case rootStream <- root:
-		case <-ctx.Done():
-		}
-	}()
+	rootStream, errcf := feedRoot(ctx, root)
 	growStream, errcg := t.grower.grow(ctx, rootStream)
 	errcs := t.spreader.spread(ctx, w, growStream)
-	return t.handlePipelineErr(ctx, errcg, errcs)
+	return t.handlePipelineErr(ctx, cancel, errcf, errcg, errcs)
 }
 
 func (t *treePipeline) mkdir(r io.Reader, cfg *config) error {
@@ -112,36 +104,28 @@ func (t *treePipeline) mkdir(r io.Reader, cfg *config) error {
 	if cfg.dryrun {
 		// when detected no invalid node name, output tree.
 		errcs := t.spreader.spread(ctx, color.Output, growStream)
-		return t.handlePipelineErr(ctx, errcsl, errcr, errcg, errcs)
+		return t.handlePipelineErr(ctx, cancel, errcsl, errcr, errcg, errcs)
 	}
 	errcm := t.mkdirer.mkdir(ctx, growStream)
-	return t.handlePipelineErr(ctx, errcsl, errcr, errcg, errcm)
+	return t.handlePipelineErr(ctx, cancel, errcsl, errcr, errcg, errcm)
 }
 
 func (t *treePipeline) mkdirProgrammably(root *Node, cfg *config) error {
 	ctx, cancel := context.WithCancel(cfg.ctx)
 	defer cancel()
 
-	rootStream := make(chan *Node)
-	go func() {
-		defer close(rootStream)
-		verifPoint("feed.send")
-		select {
-		case rootStream <- root:
-		case <-ctx.Done():
-		}
-	}()
+	rootStream, errcf := feedRoot(ctx, root)
 	t.grower.enableValidation()
 	// when detect invalid node name, return error. process end.
 	growStream, errcg := t.grower.grow(ctx, rootStream)
 	if cfg.dryrun {
 		// when detected no invalid node name, output tree.
 		errcs := t.spreader.spread(ctx, color.Output, growStream)
-		return t.handlePipelineErr(ctx, errcg, errcs)
+		return t.handlePipelineErr(ctx, cancel, errcf, errcg, errcs)
 	}
 	// when detected no invalid node name, no output tree.
 	errcm := t.mkdirer.mkdir(ctx, growStream)
-	return t.handlePipelineErr(ctx, errcg, errcm)
+	return t.handlePipelineErr(ctx, cancel, errcf, errcg, errcm)
 }
 
 func (t *treePipeline) verify(r io.Reader, cfg *config) error {
@@ -153,28 +137,20 @@ func (t *treePipeline) verify(r io.Reader, cfg *config) error {
 	rootStream, errcr := newRootGeneratorPipeline().generate(ctx, splitStream)
 	growStream, errcg := t.grower.grow(ctx, rootStream)
 	errcv := t.verifier.verify(ctx, growStream)
-	return t.handlePipelineErr(ctx, errcsl, errcr, errcg, errcv)
+	return t.handlePipelineErr(ctx, cancel, errcsl, errcr, errcg, errcv)
 }
 
 func (t *treePipeline) verifyProgrammably(root *Node, cfg *config) error {
 	ctx, cancel := context.WithCancel(cfg.ctx)
 	defer cancel()
 
-	rootStream := make(chan *Node)
-	go func() {
-		defer close(rootStream)
-		verifPoint("feed.send")
-		select {
-		case rootStream <- root:
-		case <-ctx.Done():
-		}
-	}()
+	rootStream, errcf := feedRoot(ctx, root)
 	t.grower.enableValidation()
 	// when detect invalid node name, return error. process end.
 	growStream, errcg := t.grower.grow(ctx, rootStream)
 	// when detected no invalid node name, no output tree.
 	errcv := t.verifier.verify(ctx, growStream)
-	return t.handlePipelineErr(ctx, errcg, errcv)
+	return t.handlePipelineErr(ctx, cancel, errcf, errcg, errcv)
 }
 
 func (t *treePipeline) walk(r io.Reader, callback func(*WalkerNode) error, cfg *config) error {
@@ -185,25 +161,17 @@ func (t *treePipeline) walk(r io.Reader, callback func(*WalkerNode) error, cfg *
 	rootStream, errcr := newRootGeneratorPipeline().generate(ctx, splitStream)
 	growStream, errcg := t.grower.grow(ctx, rootStream)
 	errcw := t.walker.walk(ctx, growStream, callback)
-	return t.handlePipelineErr(ctx, errcsl, errcr, errcg, errcw)
+	return t.handlePipelineErr(ctx, cancel, errcsl, errcr, errcg, errcw)
 }
 
 func (t *treePipeline) walkProgrammably(root *Node, callback func(*WalkerNode) error, cfg *config) error {
 	ctx, cancel := context.WithCancel(cfg.ctx)
 	defer cancel()
 
-	rootStream := make(chan *Node)
-	go func() {
-		defer close(rootStream)
-		verifPoint("feed.send")
-		select {
-		case rootStream <- root:
-		case <-ctx.Done():
-		}
-	}()
+	rootStream, errcf := feedRoot(ctx, root)
 	growStream, errcg := t.grower.grow(ctx, rootStream)
 	errcw := t.walker.walk(ctx, growStream, callback)
-	return t.handlePipelineErr(ctx, errcg, errcw)
+	return t.handlePipelineErr(ctx, cancel, errcf, errcg, errcw)
 }
 
 // no implemented
@@ -239,8 +207,33 @@ type walkerPipeline interface {
 	walk(context.Context, <-chan *Node, func(*WalkerNode) error) <-chan error
 }
 
+// feedRoot offers the single root to the first stage. Its error channel never carries a
+// value: it is closed when the feeding goroutine has returned, so that handlePipelineErr
+// waits for it like for a stage.
+func feedRoot(ctx context.Context, root *Node) (<-chan *Node, <-chan error) {
+	rootStream := make(chan *Node)
+	errc := make(chan error)
+	go func() {
+		defer func() {
+			close(rootStream)
+			close(errc)
+		}()
+		verifPoint("feed.send")
+		select {
+		case rootStream <- root:
+		case <-ctx.Done():
+		}
+	}()
+	return rootStream, errc
+}
+
 // パイプラインの全ステージで最初のエラーを返却
-func (*treePipeline) handlePipelineErr(ctx context.Context, echs ...<-chan error) error {
+//
+// The call must not return while goroutines of the pipeline are still running (they would
+// go on writing to the caller's writer or invoking its callback): once the outcome is
+// known the pipeline is cancelled and every stage's error channel is drained until it is
+// closed, which a stage does only after all of its goroutines have returned.
+func (*treePipeline) handlePipelineErr(ctx context.Context, cancel context.CancelFunc, echs ...<-chan error) error {
 	verifPoint("herr.start")
 	eg, ectx := errgroup.WithContext(ctx)
 	for i := range echs {
@@ -261,11 +254,18 @@ func (*treePipeline) handlePipelineErr(ctx context.Context, echs ...<-chan error
 			return nil
 		})
 	}
-	if err := eg.Wait(); err != nil {
-		return err
+	err := eg.Wait()
+	if err == nil {
+		// A reader whose channel is already closed when the context is cancelled may take
+		// either branch of its select; if all of them saw "closed" the cancellation would
+		// be reported as success although stages stopped early.
+		err = ctx.Err()
 	}
-	// A reader whose channel is already closed when the context is cancelled may take
-	// either branch of its select; if all of them saw "closed" the cancellation would
-	// be reported as success although stages stopped early.
-	return ctx.Err()
+
+	cancel()
+	for _, ech := range echs {
+		for range ech {
+		}
+	}
+	return err
 }
